@@ -962,7 +962,13 @@ func callBuiltin(caller *frame, callpos token.Pos, fn *ssa.Builtin, args []value
 				*m = omap{keyType: m.keyType, index: make(map[string]int)}
 			}
 		case []value:
-			panic(abortPath{"unsupported", "clear(slice)"})
+			st, ok := fn.Type().(*types.Signature).Params().At(0).Type().Underlying().(*types.Slice)
+			if !ok {
+				panic(abortPath{"unsupported", "clear(slice) of unknown element type"})
+			}
+			for k := range m {
+				m[k] = zero(st.Elem())
+			}
 		}
 		return nil
 
